@@ -39,7 +39,8 @@ META = {
     'rule': ("end-to-end cases = generated topologies (1-3 molecule types, paths / trees / rings of 1-6 residues, single- and "
              "multi-atom residues, mixed sizes) x boxes (cubic and not) x step factors x force limits x seeds, run through "
              "gen_coords; each accepted placement is one judged item; non-trivial = a run with at least 4 placements of which one "
-             "has a positioned residue within the cut-off; distinct by (topology text, options, seed)"),
+             "has a positioned residue within the cut-off; distinct by (topology text, options, seed)"
+             "; directed / added families (waves 10-12): branched molecules with mixed residue sizes; crowded runs with step factors 1.4-1.8; crowded runs with one try per molecule (limit judged = requested limit)"),
 }
 
 
